@@ -11,8 +11,10 @@ package main
 // impl (import): e=<class|-> row=<Val>
 
 import (
+	"bytes"
 	"encoding/json"
 	"fmt"
+	"io"
 	"math"
 	"reflect"
 	"strings"
@@ -49,6 +51,8 @@ func pathDocs() []func() jsonline.Row {
 		},
 		parse(`{}`),
 		parse(`{"a":1}`),
+		// arrays that do not start with an object: null, a scalar, a nested array first
+		parse(`{"a":[null,{"b":1},{"b":2}],"arr":[7,{"k":{"v":1}},"x",{"k":{"v":2}}],"e":[[{"f":0}],{"f":3},null,{"f":{"g":4}}],"s":[true],"n":[null]}`),
 		// a long array (longer than any path): objects, scalars, nulls, nested arrays and objects lacking the key
 		parse(`{"a":[` + strings.Repeat(`{"b":1},7,null,{"b":{"c":2}},{"x":0},[{"b":3}],`, 6) + `{"b":"last"}],"arr":{"k":[` + strings.Repeat(`{"v":[{"w":1},{"w":2}]},`, 5) + `{"v":3}]}}`),
 		func() jsonline.Row {
@@ -227,8 +231,116 @@ func emitGetter(cw *caseWriter, row jsonline.Row, getter, key string, call func(
 	cw.emit("getter "+getter+" "+key+" "+before, true, "getter", "C17", before, getter, "K:"+hx([]byte(key)), extStr(ext), impl)
 }
 
+// useRow calls the readers of a row (whatever it is) — for rows handed back together with an error.
+func useRow(row jsonline.Row) string {
+	if row == nil {
+		return "nil"
+	}
+	_ = row.Len()
+	_ = row.String()
+	_ = row.DebugString()
+	_, _ = row.Get("a")
+	_ = row.GetOrNil("a")
+	_ = row.Has("a")
+	_, _ = row.GetAtIndex(0)
+	_ = row.GetString("a")
+	_ = row.Raw()
+	_, _ = row.Export()
+	_, _ = row.MarshalJSON()
+	it := row.Iter()
+	for _, _, ok := it(); ok; _, _, ok = it() {
+	}
+	return "used"
+}
+
 func genC17(cw *caseWriter, seed uint64, tier string) {
 	r := newRng(seed)
+	// whatever an importer hands back for a bad line — (nil, err) or anything else — can be used without a crash
+	badLines := []string{`{"a":`, `{"a":1} x`, `[1]`, ``, `{"a":"notanumber"}`, `{`, "{\"a\":1}\n{\"a\":\n{\"a\":3}"}
+	for _, bl := range badLines {
+		for _, typed := range []bool{false, true} {
+			line, ty := bl, typed
+			mkImp := func(rd io.Reader) jsonline.Importer {
+				if ty {
+					return jsonline.NewTemplate().WithNumeric("a").GetImporter(rd)
+				}
+				return jsonline.NewImporter(rd)
+			}
+			emitProbe(cw, fmt.Sprintf("GetRow after %q typed=%v, then use the row", bl, typed), func() string {
+				imp := mkImp(strings.NewReader(line + "\n"))
+				out := ""
+				for imp.Import() {
+					row, _ := imp.GetRow()
+					out += useRow(row) + " "
+				}
+				row, _ := imp.GetRow()
+				return out + useRow(row)
+			})
+			emitProbe(cw, fmt.Sprintf("ReadOne after %q typed=%v, then use the row", bl, typed), func() string {
+				imp := mkImp(strings.NewReader(line + "\n"))
+				out := ""
+				for k := 0; k < 4; k++ {
+					row, _ := imp.ReadOne()
+					out += useRow(row) + " "
+				}
+				return out
+			})
+			emitProbe(cw, fmt.Sprintf("failing reader after %q typed=%v, then use the row", bl, typed), func() string {
+				imp := mkImp(&scriptReader{evs: []readEv{{kind: "d", data: []byte(line)}, {kind: "e"}}})
+				out := ""
+				for imp.Import() {
+					row, _ := imp.GetRow()
+					out += useRow(row) + " "
+				}
+				row, _ := imp.GetRow()
+				return out + useRow(row)
+			})
+			emitProbe(cw, fmt.Sprintf("Stream %q typed=%v with a processor that uses its row", bl, typed), func() string {
+				var sink bytes.Buffer
+				err := jsonline.NewStreamer(mkImp(strings.NewReader(line+"\n")), jsonline.NewExporter(&sink)).WithProcessor(func(row jsonline.Row, err error) error {
+					if row != nil {
+						useRow(row)
+					}
+					return nil
+				}).Stream()
+				return fmt.Sprintf("%v", err == nil)
+			})
+		}
+	}
+	// positional access before and after the row grew through every mutator
+	growers := map[string]func(jsonline.Row){
+		"UnmarshalJSON": func(rr jsonline.Row) { _ = rr.UnmarshalJSON([]byte(`{"n1":1,"n2":{"x":2}}`)) },
+		"Set":           func(rr jsonline.Row) { rr.Set("n1", 1) },
+		"SetValue":      func(rr jsonline.Row) { rr.SetValue("n1", jsonline.NewValueAuto(1)) },
+		"ImportAtKey":   func(rr jsonline.Row) { _ = rr.ImportAtKey("n1", 1) },
+		"Import(map)":   func(rr jsonline.Row) { _ = rr.Import(map[string]interface{}{"n1": 1}) },
+		"bad Unmarshal": func(rr jsonline.Row) { _ = rr.UnmarshalJSON([]byte(`{"n1":1,"n2":]}`)) },
+	}
+	for gname, grow := range growers {
+		for _, start := range []string{`{}`, `{"a":1}`, `{"a":1,"b":2}`} {
+			g, st := grow, start
+			emitProbe(cw, fmt.Sprintf("positional access, %s on %s, positional access again", gname, start), func() string {
+				rr := jsonline.NewRow()
+				_ = rr.UnmarshalJSON([]byte(st))
+				for i := -1; i <= rr.Len()+1; i++ {
+					_, _ = rr.GetAtIndex(i)
+					_, _ = rr.GetValueAtIndex(i)
+				}
+				g(rr)
+				out := ""
+				for i := -1; i <= rr.Len()+1; i++ {
+					v, ok := rr.GetAtIndex(i)
+					_, _ = rr.GetValueAtIndex(i)
+					_ = rr.GetAtIndexOrNil(i)
+					out += fmt.Sprintf("%v:%v ", v, ok)
+				}
+				rr.SetAtIndex(rr.Len()-1, "z")
+				_ = rr.ImportAtIndex(rr.Len()-1, "y")
+				rr.SetValueAtIndex(rr.Len()-1, jsonline.NewValueAuto(1))
+				return out + rr.String()
+			})
+		}
+	}
 	mkRows := map[string]func() jsonline.Row{
 		"empty": func() jsonline.Row { return jsonline.NewRow() },
 		"parsed": func() jsonline.Row {
